@@ -43,7 +43,8 @@ type caseDesc struct {
 	Policy string        `json:"policy"` // nil fixed zero error echo
 	TTL    uint32        `json:"ttl"`    // requested wait seconds
 	Attack attack        `json:"attack"`
-	Prior  bool          `json:"prior,omitempty"` // the genuine owner registered this GUID in an earlier session of the same server
+	Prior  bool          `json:"prior,omitempty"`
+	Addr   int           `json:"addr,omitempty"` // address list variant of the redirect (0 DNS only, 1 ip4+DNS, 2 ip6, 3 IPv4-mapped ip6 + ip4, 4 empty) // the genuine owner registered this GUID in an earlier session of the same server
 }
 
 func ownersFor(n int) []int {
@@ -153,6 +154,10 @@ func pubNode(cfg deploy.Config, key crypto.Signer) *refcbor.Node {
 }
 
 // ownerSign builds TO0.OwnerSign from its parts.
+// addrVariant selects the address list ownerSign puts into to1d (set per case by evalCase; cases of a
+// process run one after another).
+var addrVariant int
+
 func ownerSign(cfg deploy.Config, vbytes []byte, wait uint32, nonce []byte, signer crypto.Signer, rsa bool, hashOp string) []byte {
 	v, err := refcbor.ParseAll(vbytes)
 	if err != nil {
@@ -177,7 +182,21 @@ func ownerSign(cfg deploy.Config, vbytes []byte, wait uint32, nonce []byte, sign
 		hash.Items[0] = refcbor.I(5)
 	}
 	dns := refcbor.T("owner.test")
-	payload := refcbor.EncodeKeepOrder(refcbor.A(refcbor.A(refcbor.A(refcbor.Null(), dns, refcbor.U(8043), refcbor.U(3))), hash))
+	// the owner's address list as a conforming encoder of another implementation may write it
+	// (RVTO2AddrEntry = [RVIP / null, RVDNS / null, port, protocol]; ip4 = bstr .size 4, ip6 = bstr .size 16)
+	addrs := refcbor.A(refcbor.A(refcbor.Null(), dns, refcbor.U(8043), refcbor.U(3)))
+	switch addrVariant {
+	case 1:
+		addrs = refcbor.A(refcbor.A(refcbor.B([]byte{10, 0, 0, 7}), dns, refcbor.U(443), refcbor.U(5)))
+	case 2:
+		addrs = refcbor.A(refcbor.A(refcbor.B([]byte{0xfd, 0, 0, 0, 0, 0, 0, 0, 0, 0, 0, 0, 0, 0, 0, 1}), refcbor.Null(), refcbor.U(80), refcbor.U(3)))
+	case 3: // an IPv4-mapped address carried as ip6
+		addrs = refcbor.A(refcbor.A(refcbor.B([]byte{0, 0, 0, 0, 0, 0, 0, 0, 0, 0, 0xff, 0xff, 10, 0, 0, 7}), refcbor.Null(), refcbor.U(8443), refcbor.U(5)),
+			refcbor.A(refcbor.B([]byte{192, 168, 1, 2}), dns, refcbor.U(1), refcbor.U(1)))
+	case 4:
+		addrs = refcbor.A()
+	}
+	payload := refcbor.EncodeKeepOrder(refcbor.A(addrs, hash))
 	to1d, err := wire.Sign1(signer, wire.AlgFor(signer.Public(), rsa && cfg.PSS()), nil, nil, payload, true)
 	if err != nil {
 		panic(err)
@@ -295,6 +314,7 @@ func evalCase(d caseDesc) ev.Result {
 		}
 		return tok, n.Items[0].Bytes, nil
 	}
+	addrVariant = ((d.Addr % 5) + 5) % 5
 	if d.Prior {
 		// an earlier, genuine registration of the same GUID (its blob is stored and unexpired
 		// when the request under test arrives)
@@ -574,6 +594,7 @@ func genCase(t *rapid.T) caseDesc {
 	kind := rapid.SampledFrom([]string{"none", "mutate", "mutate", "mutate", "signer", "signer", "replay", "zero-entries", "other-to1d", "hash", "no-hello", "graft", "graft", "takeover", "takeover"}).Draw(t, "kind")
 	d.Attack.Kind = kind
 	d.Prior = rapid.IntRange(0, 2).Draw(t, "prior") == 0
+	d.Addr = rapid.SampledFrom([]int{0, 0, 1, 2, 3, 3, 4}).Draw(t, "addr")
 	switch kind {
 	case "mutate":
 		d.Attack.Mut = refcbor.Mutation{Node: rapid.IntRange(0, 300).Draw(t, "node"), Op: "auto", Arg: int64(rapid.IntRange(-4000, 4000).Draw(t, "arg"))}
@@ -594,7 +615,7 @@ func genCase(t *rapid.T) caseDesc {
 func TestC06(t *testing.T) {
 	r := ev.Start(t, "C06")
 	defer r.Finish()
-	r.SetRule("controls", "exhaustive: 14 key/encoding configurations × chain length 1..3 × TTL policy {nil, fixed 600, zero, error, echo/2} × requested TTL {3600, 2^32-1}: the honest owner registers; oracle: accepted iff the policy admits, reply type 23 carries the accepted TTL, SetRVBlob expiry − now = TTL ± 2 s, callback invoked once")
+	r.SetRule("controls", "exhaustive: 14 key/encoding configurations × chain length 1..3 × TTL policy {nil, fixed 600, zero, error, echo/2} × requested TTL {3600, 2^32-1}: the honest owner (a manual owner built from the CDDL, writing the redirect's address list in five shapes incl. an IPv4-mapped address carried as ip6) registers; oracle: accepted iff the policy admits, reply type 23 carries the accepted TTL, SetRVBlob expiry − now = TTL ± 2 s, callback invoked once")
 	ev.Enum(r, "controls", true, func(yield func(caseDesc) bool) {
 		i := 0
 		for _, c := range configs {
@@ -605,7 +626,7 @@ func TestC06(t *testing.T) {
 						if !r.Mine(i) {
 							continue
 						}
-						if !yield(caseDesc{Cfg: c, Chain: chain, Policy: pol, TTL: ttl, Attack: attack{Kind: "none"}}) {
+						if !yield(caseDesc{Cfg: c, Chain: chain, Policy: pol, TTL: ttl, Addr: i % 5, Attack: attack{Kind: "none"}}) {
 							return
 						}
 					}
